@@ -112,10 +112,12 @@ def run(ctx):
     # ---- S3 ---------------------------------------------------------------------------------------
     fnc, g, where = fn_cfg(ctx, SH, f"{M}.shelve_changes", roles={"shelf_file": ("assign", "self.new_shelf()", 1)})
     wr = need(where, calling(g, attr="write_shelf"), "creator.write_shelf(shelf_file, message)")
-    cl = need(where, calling(g, attr="close", recv="shelf_file"), "shelf_file.close()")
+    cl = calling(g, attr="close", recv="shelf_file") + [n.id for n in g.nodes if n.kind == "with_exit" and norm(n.ast.context_expr) == "shelf_file"]
     tr = need(where, calling(g, attr="transform"), "creator.transform()")
     k1_before(ctx, "S3-write-before-revert", where, g, wr, tr, "the shelf is written before the tree is changed")
-    k1_before(ctx, "S3-write-before-revert", where, g, cl, tr, "the shelf file is closed (flushed) before the tree is changed")
+    ctx.check("S3-write-before-revert", where, bool(cl), "the shelf file is closed (close() or a with block)")
+    if cl:
+        k1_before(ctx, "S3-write-before-revert", where, g, cl, tr, "the shelf file is closed (flushed) before the tree is changed")
     xs = [b for w_ in wr for (b, l) in g.succ[w_] if l == "X"]
     ctx.check("S3-write-before-revert", where, bool(xs) and not (set(tr) & g.reach(xs, include_src=True)), "a failure while writing the shelf never reaches creator.transform()", message="after a failed write of the shelf file the tree is still reverted: the changes are lost")
     # ---- S4 ---------------------------------------------------------------------------------------
@@ -180,6 +182,8 @@ def run(ctx):
 
 
 MUTANTS = [
+    Mutant("tree reverted first, shelf written in a with block", SH, "        next_shelf, shelf_file = self.new_shelf()\n        try:\n            creator.write_shelf(shelf_file, message)\n        finally:\n            shelf_file.close()\n        creator.transform()\n", "        creator.transform()\n        next_shelf, shelf_file = self.new_shelf()\n        with shelf_file:\n            creator.write_shelf(shelf_file, message)\n", expect="S3-write-before-revert"),
+    Mutant("neutral: shelf written in a with block before the revert", SH, "        try:\n            creator.write_shelf(shelf_file, message)\n        finally:\n            shelf_file.close()\n        creator.transform()\n", "        with shelf_file:\n            creator.write_shelf(shelf_file, message)\n        creator.transform()\n", neutral=True),
     Mutant("recogniser accepts a different prefix", SH, 'matcher = re.compile("shelf-([1-9][0-9]*)")', 'matcher = re.compile("shelf([1-9][0-9]*)")', expect="S1-name-template"),
     Mutant("recogniser stops at one digit", SH, 'matcher = re.compile("shelf-([1-9][0-9]*)")', 'matcher = re.compile("shelf-([1-9][0-9]?)")', expect="S1-name-template"),
     Mutant("numbering from the count of shelves", SH, "        next_shelf = 1 if last_shelf is None else last_shelf + 1\n", "        next_shelf = len(self.active_shelves()) + 1\n", expect="S2-numbering"),
